@@ -88,6 +88,16 @@ func BuildUnit(P *Program, key string, profile string, prop string) (*Unit, erro
 		e.assumeWF(c, t, alloc0)
 		e.logicals[lv.Name] = TV{c, t}
 	}
+	for _, ld := range fc.Lets {
+		tv, err := pre.eval(ld.Expr)
+		if err != nil {
+			return nil, fmt.Errorf("%s: let %s: %v", key, ld.Name, err)
+		}
+		if t, ok := tv.Ty.(types.Type); ok {
+			tv.T = e.define("let:"+ld.Name, e.S.sortOf(t), tv.T)
+		}
+		e.logicals[ld.Name] = tv
+	}
 	for _, c := range fc.Requires {
 		if c.Profile != "" && c.Profile != profile {
 			continue
@@ -98,6 +108,21 @@ func BuildUnit(P *Program, key string, profile string, prop string) (*Unit, erro
 			continue
 		}
 		e.assume(tv.T)
+	}
+	wc := fc.WritesClause(profile)
+	if wc == nil {
+		wc = fc.Mod(profile)
+	}
+	if wc != nil {
+		e.wfree = true
+		e.writeProps = wc.Props
+		for _, m := range wc.Exprs {
+			tv, err := pre.eval(m)
+			if err != nil {
+				return nil, fmt.Errorf("%s: writes clause: %v", key, err)
+			}
+			e.writeRefs = append(e.writeRefs, refOf(tv)...)
+		}
 	}
 	x.run(args, free, st, "true")
 
@@ -219,6 +244,15 @@ func (x *fx) bindLogicals(fc *FuncContract, env *Env) {
 		}
 		c := e.declare("logical:"+lv.Name, e.S.sortOf(t))
 		env.vars[lv.Name] = TV{c, t}
+	}
+	// the callee's lets are defined from its own arguments in the pre-state
+	for _, ld := range fc.Lets {
+		tv, err := env.eval(ld.Expr)
+		if err != nil {
+			e.note("let " + ld.Name + " of " + fc.Key + ": " + err.Error())
+			continue
+		}
+		env.vars[ld.Name] = tv
 	}
 }
 
